@@ -637,6 +637,47 @@ func jsonNumberBombs() []c06Placed {
 	return r
 }
 
+// manyMemberErrorDocs: documents of up to 60 KB with thousands of members
+// (JSON) / entries (CBOR) that take an ERROR path of the dispatching decoders:
+// an unregistered profile, profile members naming two profiles, a profile of
+// a wrong type, a mandatory claim of a wrong type at the very end.
+func manyMemberErrorDocs() []c06Placed {
+	var r []c06Placed
+	for _, n := range []int{1000, 3000, 6000} {
+		var sb strings.Builder
+		for i := 0; i < n; i++ {
+			fmt.Fprintf(&sb, `"k%d":1,`, i)
+		}
+		members := sb.String()
+		for name, tail := range map[string]string{
+			"unregistered-eat-profile": `"eat-profile":"http://example.com/none"`,
+			"unregistered-psa-profile": `"psa-profile":"PSA_IOT_PROFILE_9"`,
+			"two-profiles":             `"eat-profile":"http://arm.com/psa/2.0.0","psa-profile":"PSA_IOT_PROFILE_1"`,
+			"profile-wrong-type":       `"eat-profile":[1,2,3]`,
+			"claim-wrong-type":         `"eat-profile":"http://arm.com/psa/2.0.0","psa-client-id":"x"`,
+			"p1-claim-wrong-type":      `"psa-client-id":"x"`,
+		} {
+			r = append(r, c06Placed{"json", fmt.Sprintf("%d members, %s last", n, name), []byte("{" + members + tail + "}")})
+			r = append(r, c06Placed{"json", fmt.Sprintf("%d members, %s first", n, name), []byte("{" + tail + "," + members[:len(members)-1] + "}")})
+		}
+		// CBOR: n unknown integer keys plus an unregistered / wrong-typed profile
+		ps := make([][2]*icbor.Node, 0, n+2)
+		for i := 0; i < n; i++ {
+			ps = append(ps, icbor.P(icbor.U(uint64(100000+i)), icbor.U(1)))
+		}
+		for name, tail := range map[string][2]*icbor.Node{
+			"unregistered-profile": icbor.P(icbor.U(265), icbor.Tstr("http://example.com/none")),
+			"profile-wrong-type":   icbor.P(icbor.U(265), icbor.Arr(icbor.U(1))),
+			"claim-wrong-type":     icbor.P(icbor.I(-75001), icbor.Tstr("x")),
+		} {
+			doc := icbor.Encode(icbor.Map(append(append([][2]*icbor.Node{}, ps...), tail)...))
+			r = append(r, c06Placed{"cbor", fmt.Sprintf("%d entries, %s", n, name), doc}, c06Placed{"enc-cbor", fmt.Sprintf("%d entries, %s", n, name), doc})
+			r = append(r, c06Placed{"cose", fmt.Sprintf("payload: %d entries, %s", n, name), icbor.Encode(c05Envelope(doc))})
+		}
+	}
+	return r
+}
+
 func nestings() []c06Placed {
 	var r []c06Placed
 	rep := func(unit []byte, d int, tail []byte) []byte {
@@ -958,9 +999,9 @@ func c06Report(t testing.TB, pl *c06Pool, v string, in c06In) {
 }
 
 func TestC06_Bombs(t *testing.T) {
-	st := NewStats("C06", "TestC06_Bombs", "enumeration, measured in an address-space-limited single-goroutine worker process (TotalAlloc delta and wall time per input): header bombs = every major type 2..6 x additional-info 24..27 x declared length in {0x80,0xff,2^8,2^16-1,2^16,2^24,2^31,2^32-1,2^32,2^63,2^64-1} x 0..16 following bytes, placed at top level and at every structural position of a valid token of both profiles (5 claim values, a component field, an unknown key's value, COSE payload / protected / unprotected / signature / tag content / protected-header content / unprotected-header value); declared lengths that wrap around when converted or added (2^64-k for k=1..16 and others, 2^63+-k, 2^32-k, 2^31+-k) as value / key / element of definite and indefinite-length containers; claims documents with two members changed at once (one null / empty, one of a wrong type); JSON numbers with exponents up to 10^9 and 60000-digit spellings in every numeric member; nesting of arrays, maps, tags, indefinite containers to depth 8..32000 and JSON arrays/objects to depth 8..65536 (closed and unclosed, top level and inside claims); 4 KiB..60 KiB strings, 1000..16000-key maps (distinct and duplicate keys), 700-component and 60000-null component lists; every 1- and 2-byte input that starts with a tag head and valid documents wrapped 1..3 deep in 42 tag numbers of every head width (termination of the hand-written tag skipping). Every input goes to every entry point of its family (COSE, claims CBOR incl. per-type unmarshal and extension types, claims JSON, populate helpers). Violation: a call allocates more than 1 MiB + 1 KiB per input byte, or takes > 5 s (re-measured in 3 fresh processes), or the worker dies with an out-of-memory fatal error. Non-trivial = declares more data than it carries, or nests >= 8 deep, or >= 4 KiB; distinct = family + input")
+	st := NewStats("C06", "TestC06_Bombs", "enumeration, measured in an address-space-limited single-goroutine worker process (TotalAlloc delta and wall time per input): header bombs = every major type 2..6 x additional-info 24..27 x declared length in {0x80,0xff,2^8,2^16-1,2^16,2^24,2^31,2^32-1,2^32,2^63,2^64-1} x 0..16 following bytes, placed at top level and at every structural position of a valid token of both profiles (5 claim values, a component field, an unknown key's value, COSE payload / protected / unprotected / signature / tag content / protected-header content / unprotected-header value); declared lengths that wrap around when converted or added (2^64-k for k=1..16 and others, 2^63+-k, 2^32-k, 2^31+-k) as value / key / element of definite and indefinite-length containers; claims documents with two members changed at once (one null / empty, one of a wrong type); documents with thousands of members that take an error path of the dispatching decoders (unregistered / double / wrong-typed profile, wrong-typed claim); JSON numbers with exponents up to 10^9 and 60000-digit spellings in every numeric member; nesting of arrays, maps, tags, indefinite containers to depth 8..32000 and JSON arrays/objects to depth 8..65536 (closed and unclosed, top level and inside claims); 4 KiB..60 KiB strings, 1000..16000-key maps (distinct and duplicate keys), 700-component and 60000-null component lists; every 1- and 2-byte input that starts with a tag head and valid documents wrapped 1..3 deep in 42 tag numbers of every head width (termination of the hand-written tag skipping). Every input goes to every entry point of its family (COSE, claims CBOR incl. per-type unmarshal and extension types, claims JSON, populate helpers). Violation: a call allocates more than 1 MiB + 1 KiB per input byte, or takes > 5 s (re-measured in 3 fresh processes), or the worker dies with an out-of-memory fatal error. Non-trivial = declares more data than it carries, or nests >= 8 deep, or >= 4 KiB; distinct = family + input")
 	st.Exhaustive = true
-	st.Require = []string{"bomb", "wrap-around", "member-pair", "json-number", "nesting", "big", "tag-wrapped", "error-path", "family=cbor", "family=cose", "family=json", "family=enc-cbor", "family=enc-json"}
+	st.Require = []string{"bomb", "wrap-around", "member-pair", "json-number", "many-members-error-path", "nesting", "big", "tag-wrapped", "error-path", "family=cbor", "family=cose", "family=json", "family=enc-cbor", "family=enc-json"}
 	defer st.Flush(t)
 	pl := &c06Pool{}
 	defer pl.drop()
@@ -988,6 +1029,9 @@ func TestC06_Bombs(t *testing.T) {
 	}
 	for _, p := range jsonNumberBombs() {
 		run(p, "json-number")
+	}
+	for _, p := range manyMemberErrorDocs() {
+		run(p, "many-members-error-path")
 	}
 	for _, p := range nestings() {
 		run(p, "nesting")
